@@ -369,6 +369,21 @@ Section Validator.
 
   Definition msg_prefix := Str "ERROR: Invalid value in ".
 
+  (* idx = max(i for i, p in enumerate(path) if not isinstance(p, int)):
+     the path before its last key, and that key (None: no key, max() of an
+     empty sequence raises ValueError) *)
+  Fixpoint last_key (path : list pelem) : option (list pelem * str) :=
+    match path with
+    | [] => None
+    | x :: path' =>
+        match last_key path' with
+        | Some (pre, k) => Some (x :: pre, k)
+        | None => match x with PKey k => Some ([], k) | PIdx _ => None end
+        end
+    end.
+
+  Definition is_dict (v : value) : bool := match v with VDict _ _ => true | _ => false end.
+
   (* Validator.create_message (add_comments = False); the jsonschema message
      text is replaced by the error path and the validator keyword *)
   Definition create_message (rootdict : value) (e : verr) : res value :=
@@ -380,7 +395,15 @@ Section Validator.
                  match last path (PIdx 0) with
                  | PIdx _ =>
                      do d <- findkey rootdict path;
-                     do key <- getitem d (PKey K_dtype); Ok (d, key)
+                     if is_dict d then
+                       (* the error is on an object in a list *)
+                       do key <- getitem d (PKey K_dtype); Ok (d, key)
+                     else
+                       (* the error is on an item of a list-valued keyword *)
+                       match last_key path with
+                       | Some (pre, key) => do d' <- findkey rootdict pre; Ok (d', VStr key)
+                       | None => Err PyValueError
+                       end
                  | PKey key =>
                      do d <- findkey rootdict (removelast path); Ok (d, VStr key)
                  end
@@ -393,10 +416,15 @@ Section Validator.
                      (Str "message", VStr error_message)] in
         do haspos <- contains d K_dposition;
         if haspos then
-          do posd <- getitem d (PKey K_dposition);
-          do pd <- (if is_nil path then Ok posd
-                    else do has <- contains posd key;
-                         if has then getitem posd (PKey key) else Ok posd);
+          (* child = d.get(key) if path else None *)
+          do child <- (if is_nil path then Ok VNone else dict_get d key);
+          do child_pos <- (if is_dict child then contains child K_dposition else Ok false);
+          do pd <- (if child_pos then getitem child (PKey K_dposition)
+                    else
+                      do posd <- getitem d (PKey K_dposition);
+                      if is_nil path then Ok posd
+                      else do has <- contains posd key;
+                           if has then getitem posd (PKey key) else Ok posd);
           do line <- dict_get pd (Str "line");
           do column <- dict_get pd (Str "column");
           Ok (VDict DPlain (base ++ [(Str "line", line); (Str "column", column)]))
